@@ -60,6 +60,7 @@ CORE_SMILES = [
     'Cc1cn2ccsc2n1', 'N1C=Cn2cccc12', 'c1ccc2c(c1)[nH]c1ccccc21', 'C1=CC2=CC=CN2C=C1',                        # fused hetero rings (scoped matching inside thiele)
     'CN(C)(C)=O', 'CN(=O)=O', 'C[S+](C)[O-]', 'CN=[N+]=[N-]', 'C=[N+]=[N-]',                                   # standardisation groups
 ]
+_CORE_SET = set(CORE_SMILES)
 FILES = ['isomorphism.sdf', 'mcs.sdf', 'standardize.sdf', 'arenes.sdf', 'hbonds.sdf', 'depict.sdf', 'implicit.sdf',
          'morgan_ruiner.sdf', 'stereo.sdf', 'MR.rdf', 'ions.rdf', 'standardize.rdf', 'implicit.mrv', 'cycle.sdf']
 RXN_OBS = ['rxn_str', 'rxn_fmt_m', 'rxn_fmt_h', 'rxn_fmt_ns', 'rxn_fmt_A', 'rxn_cgr', 'rxn_cgr_order', 'rxn_centers', 'rxn_canonicalize', 'rxn_standardize',
@@ -111,6 +112,15 @@ def draw_config(rng, k):
             'gc': rng.choice(['on', 'on', 'off', 'low']), 'window': rng.choice([1, 2, 4, 8])}
 
 
+def _dedupe(xs):
+    seen, out = set(), []
+    for x in xs:
+        if x not in seen:
+            seen.add(x)
+            out.append(x)
+    return out
+
+
 def make_events(rng, n_mols, tier, cfg, corpus=None):
     order = list(range(n_mols))
     rng.shuffle(order)
@@ -129,11 +139,17 @@ def make_events(rng, n_mols, tier, cfg, corpus=None):
             per.append(ev)
             continue
         names = list(CHEAP)
-        names += rng.sample(MEDIUM, 6 if tier == 'quick' else 9)
-        names += ['smarts%d%s' % (k, rng.choice(['', '_all'])) for k in rng.sample(range(N_SMARTS), 5 if tier == 'quick' else 8)]
-        if rng.random() < (0.4 if tier == 'quick' else 0.7):
-            names += rng.sample(EXPENSIVE, 2)
-        rng.shuffle(names)
+        if corpus is not None and corpus[i][0] == 'smi' and corpus[i][1] in _CORE_SET:
+            # the fixed core of feature molecules gets every observer in every execution (detection must not be seed luck)
+            names += MEDIUM + EXPENSIVE + ['smarts%d%s' % (k, rng.choice(['', '_all'])) for k in range(N_SMARTS)]
+            rng.shuffle(names)
+            names = _dedupe(names)
+        else:
+            names += rng.sample(MEDIUM, 6 if tier == 'quick' else 9)
+            names += ['smarts%d%s' % (k, rng.choice(['', '_all'])) for k in rng.sample(range(N_SMARTS), 5 if tier == 'quick' else 8)]
+            if rng.random() < (0.4 if tier == 'quick' else 0.7):
+                names += rng.sample(EXPENSIVE, 2)
+            rng.shuffle(names)
         ev = [['load', i]]
         copy_first = rng.random() < 0.3
         if copy_first:
